@@ -74,6 +74,32 @@ def shared_object_pairs(rng, G):
             out += [(A, B), (B, A), (A, B2), (B2, A), (A, deep_copy(A)), (B, B2)]
         except Exception:
             pass
+    # the memo of pairs found equal: both expressions re-use TWO sub-expression objects (cf, cg resp. rebuilt copies), the pair that
+    # differs sits in an EARLIER operand slot than pairs made of already-seen objects (operands are compared last to first)
+    import ufl.classes as C
+    cs = [c for cs_ in G.coeffs.values() for c in cs_ if c.ufl_shape == ()]
+    if len(cs) >= 2:
+        f, g = cs[0], cs[1]
+        for un in (ufl.cos, ufl.exp):
+            cf, cg = un(f), un(g)
+            cf2, cg2 = un(f), un(g)
+            try:
+                A = ufl.atan2(ufl.sin(cf), cf / cg)
+                B = ufl.atan2(ufl.sin(cg2), cf2 / cg2)
+                A2 = ufl.max_value(cf * cg, ufl.max_value(cf, cg))
+                B2 = ufl.max_value(cg2 * cf2 + 0, ufl.max_value(cf2, cg2)) if False else ufl.max_value(cg2 / cf2, ufl.max_value(cf2, cg2))
+                out += [(A, B), (B, A), (A2, B2), (B2, A2)]
+            except Exception:
+                pass
+        # equal but DISTINCT coefficient objects (same space and count, constructed twice) in the later-compared slot, a real
+        # difference in the earlier one
+        try:
+            V = f.ufl_function_space()
+            w1, w2 = ufl.Coefficient(V, count=f.count() + 1000), ufl.Coefficient(V, count=f.count() + 1000)
+            out += [(C.Product(f, w1), C.Product(g, w2)), (C.Product(g, w2), C.Product(f, w1)), (ufl.atan2(f, w1), ufl.atan2(g, w2)), (ufl.atan2(g, w2), ufl.atan2(f, w1)),
+                    (w1, w2), (w2, w1), (ufl.sin(w1), ufl.sin(w2))]
+        except Exception:
+            pass
     return out
 
 
